@@ -245,6 +245,11 @@ func (k *Kernel) resolve(dirfd int, path string) (dir *Inode, name string, e Err
 		return nil, "", syscall.ENOENT
 	}
 	comps := strings.Split(path, "/")
+	for _, c := range comps {
+		if len(c) > 255 { // NAME_MAX
+			return nil, "", syscall.ENAMETOOLONG
+		}
+	}
 	// strip trailing empties
 	for len(comps) > 0 && comps[len(comps)-1] == "" {
 		comps = comps[:len(comps)-1]
